@@ -1,8 +1,20 @@
 ----------------------------- MODULE PrintfCases -----------------------------
-(* The enumerated families of C09 (shared by MC_Printf and Gen_Printf).        *)
+(* The enumerated families of C09 (shared by MC_Printf and Gen_Printf):        *)
+(*  - one directive (32 flag sets x widths x precisions x conversions) on the  *)
+(*    constants of its argument class (ArgsFor);                                *)
+(*  - the argument-KIND family: every conversion on text from input (strnum:    *)
+(*    numeric-looking, blank-padded, hex-looking, inf, NBSP-padded, numeric     *)
+(*    prefix only, non-numeric, empty, multi-byte), with the string constant    *)
+(*    and the number of the same spelling next to it (KindArgs, KGrid);         *)
+(*  - formats with several directives and erroneous formats (Multi);            *)
+(*  - runs of several calls in ONE interpreter (Seqs): one format on arguments  *)
+(*    of different kinds, and pairs of formats that differ only in a conversion *)
+(*    letter an implementation may rewrite to the same one (c/s, u/d, i/d);     *)
+(*  - print lines (PrintCases): OFMT texts x output modes x argument lists.     *)
 EXTENDS Printf, FiniteSets
 
 Cf6 == [verb |-> "g", prec |-> 6]
+N(m) == VNum(NatNum(m))
 Dec(neg, d, x) == MkNum(neg, d, x)
 EA == <<xC3, xA9>>                        \* e-acute, two bytes
 
@@ -46,7 +58,6 @@ UbFlags(d) == \/ HASH \in d.flags /\ d.verb \in {c_d, c_i, c_u, c_c, c_s}
               \/ D0 \in d.flags /\ d.verb \in {c_c, c_s}
 
 \* ---- formats with several directives, literal text, missing arguments, errors
-N(m) == VNum(NatNum(m))
 S3(a, b, c) == VStr(<<a, b, c>>)
 Multi == {
   [f |-> <<PCT, c_d, SP, PCT, c_s, BAR, PCT, D5, DOT, D2, c_f, PCT, PCT>>, a |-> <<N(7), S3(c_a, c_b, c_c), VNum(Dec(FALSE, <<2, 5>>, 0 - 1))>>],
@@ -81,4 +92,85 @@ Multi == {
   [f |-> <<>>, a |-> <<>>],
   [f |-> <<c_h, c_i>>, a |-> <<N(1)>>]
 }
+
+\* ---- the argument-kind family: text from input under every conversion
+InputTexts == { <<D6, D5>>,                              \* 65
+                <<SP, D6, D5, SP>>,                      \* blank-padded
+                <<D6, DOT, D5, c_e, D1>>,                \* 6.5e1
+                <<PLUS, D6, D5, DOT, D7>>,               \* +65.7
+                <<MINUS, D3, DOT, D7>>,                  \* -3.7
+                <<D2, D3, D3>>,                          \* 233: a byte / U+00E9
+                <<DOT, D5>>,                             \* .5
+                <<D0, c_x, D4, D1>>,                     \* 0x41: open (hexadecimal)
+                <<c_i, c_n, c_f>>,                       \* inf: open
+                NBSP \o <<D6, D5>>,                      \* open (non-ASCII blank)
+                <<D6, D5, c_a, c_b, c_c>>,               \* numeric prefix only: a string
+                <<D1, c_e>>,                             \* 1e: a string
+                <<c_a, c_b, c_c>>,
+                EA \o <<c_a>>,
+                <<>> }
+\* the same spelling as a string constant and as a number, so that the three kinds meet in one family
+KindArgs == {VStrnum(str) : str \in InputTexts} \cup
+            {VStr(<<D6, D5>>), VStr(<<SP, D6, D5, SP>>), VStr(<<D0, c_x, D4, D1>>), VNum(NatNum(65)), VNum(Dec(TRUE, <<3, 7>>, 0 - 1)), VNull}
+\* the directives of the kind family.  The kind of the argument only meets the conversion, not the padding:
+\* the small grid has 4 flag sets x 3 widths x 3 precisions, the full one is the grid of the directive family.
+KFlagsSmall == {{}, {MINUS}, {D0}, {PLUS}}
+KWSmall == {1, 3, 4}             \* none, 7, *=6
+KPSmall == {1, 4, 6}             \* none, .2, .*=3
+KFlags(full) == IF full THEN SUBSET FlagChars ELSE KFlagsSmall
+KWs(full) == IF full THEN 1..Len(WOpts) ELSE KWSmall
+KPs(full, verb) == IF verb = c_c THEN {1} ELSE IF full THEN 1..Len(POpts) ELSE KPSmall
+
+\* ---- runs: several calls in one interpreter.  A run is a sequence of [f |-> format, a |-> arguments].
+St(str) == VStr(str)
+In(str) == VStrnum(str)
+Hello == <<c_h, c_e, c_l, c_l, c_o>>
+Call(f, a) == [f |-> f, a |-> a]
+\* one format on arguments of every kind, number first / input text first
+KindRun(f, verb) ==
+  LET num == IF verb \in FloatVerbs THEN VNum(Dec(FALSE, <<6, 5, 5>>, 0 - 1)) ELSE N(65)
+  IN { << Call(f, <<num>>), Call(f, <<St(<<D6, D5>>)>>), Call(f, <<In(<<D6, D5>>)>>), Call(f, <<In(<<D6, D5, c_a, c_b, c_c>>)>>), Call(f, <<num>>) >>,
+       << Call(f, <<In(<<SP, D6, D5, SP>>)>>), Call(f, <<St(<<c_a, c_b, c_c>>)>>), Call(f, <<In(<<c_a, c_b, c_c>>)>>), Call(f, <<num>>), Call(f, <<In(<<D6, DOT, D5, c_e, D1>>)>>) >> }
+Deco(verb) == { <<PCT, verb>>, <<PCT, verb, BAR>>, <<LBRK, PCT, D5, verb, RBRK>>, <<c_x, EQ, PCT, MINUS, D4, verb, BAR>> }
+KindRuns == UNION { KindRun(f, verb) : f \in Deco(verb), verb \in Verbs }
+\* two formats that differ only in the conversion letter; the first one is used first
+SibArgs(verb) == IF verb \in {c_c, c_s} THEN {N(65), St(Hello), In(<<D7, D2>>)} ELSE {N(3), N(0 - 3), VNum(Dec(TRUE, <<2, 5>>, 0 - 1)), In(<<MINUS, D7>>)}
+SibPairs == { <<c_c, c_s>>, <<c_s, c_c>>, <<c_u, c_d>>, <<c_d, c_u>>, <<c_i, c_d>>, <<c_d, c_i>>, <<c_u, c_i>>, <<c_i, c_u>>, <<c_x, C_X>>, <<c_e, C_E>>, <<c_g, c_f>> }
+SibFmt(shape, verb) == CASE shape = 1 -> <<PCT, verb>> [] shape = 2 -> <<PCT, verb, BAR>> [] shape = 3 -> <<LBRK, PCT, D5, verb, RBRK>>
+                         [] shape = 4 -> <<PCT, verb, LF>> [] shape = 5 -> <<PCT, MINUS, D3, verb, PCT, PCT>>
+SibRuns == { << Call(SibFmt(sh, pr[1]), <<a1>>), Call(SibFmt(sh, pr[2]), <<a2>>), Call(SibFmt(sh, pr[1]), <<a2>>), Call(SibFmt(sh, pr[2]), <<a1>>) >> :
+               sh \in 1..5, pr \in SibPairs, a1 \in SibArgs(pr[1]), a2 \in SibArgs(pr[1]) }
+\* a run ended by a run-time error: the calls before it have printed
+ErrRuns == { << Call(<<PCT, c_d>>, <<N(1)>>), Call(<<PCT, c_d, SP, PCT, c_d>>, <<N(1)>>), Call(<<PCT, c_d>>, <<N(2)>>) >>,
+             << Call(<<PCT, c_c>>, <<In(<<D6, D5>>)>>), Call(<<PCT, c_z>>, <<N(1)>>) >> }
+Seqs == KindRuns \cup SibRuns \cup ErrRuns
+\* the prediction for a run: the result of every call up to and including the first error
+RECURSIVE RunResults(_, _, _)
+RunResults(calls, k, chars) ==
+  IF k > Len(calls) THEN <<>>
+  ELSE LET r == Format(calls[k].f, calls[k].a, chars, Cf6)
+       IN IF r.err THEN <<r>> ELSE <<r>> \o RunResults(calls, k + 1, chars)
+RunOpen(calls) == \E k \in 1..Len(calls) : HasOpenArg(calls[k].a)
+
+\* ---- print
+T(str) == str
+OFmtTexts == { <<PCT, DOT, D6, c_g>>, <<PCT, DOT, D2, c_f>>, <<PCT, DOT, D3, c_e>>, <<PCT, DOT, D3, c_g>>,
+               <<PCT, c_g>>, <<PCT, C_G>>,                       \* no precision: C's default is 6
+               <<PCT, D8, DOT, D1, c_f>>,                         \* blanks in front (quoted in CSV output)
+               <<PCT, DOT, D2, c_f, COMMA>>,                      \* text after the directive (quoted in CSV, not in TSV)
+               <<PCT, PLUS, DOT, D1, c_e>>, <<c_x, PCT, MINUS, D7, DOT, D2, c_f, BAR>>, <<PCT, DOT, D0, c_f>> }
+CFmtTexts == { <<PCT, DOT, D6, c_g>>, <<PCT, DOT, D3, c_e>>, <<PCT, DOT, D1, c_f>> }
+PrintNums == { Zero, NatNum(1), NatNum(0 - 42), NatNum(100000), NatNum(1000000), NatNum(2147483647), Dec(FALSE, P53, 0), Dec(TRUE, P63, 0),
+               Dec(FALSE, <<1>>, 18), Dec(FALSE, <<5>>, 0 - 1), Dec(TRUE, <<1, 2, 5>>, 0 - 3), Dec(FALSE, <<1, 2, 3, 4, 5, 6, 7, 5>>, 0 - 1),
+               Dec(FALSE, <<1>>, 0 - 1), Dec(FALSE, <<3, 1, 4, 1, 5, 9, 2, 6, 5>>, 0 - 8), Dec(FALSE, <<1>>, 30), Dec(FALSE, <<1>>, 0 - 5),
+               Dec(FALSE, <<1, 0, 0, 0, 0, 0, 0, 5>>, 0 - 1), Dec(FALSE, <<2, 5>>, 0 - 1), Dec(TRUE, <<2, 5>>, 20), Dec(FALSE, <<1, 6, 2, 7, 5>>, 0 - 4) }
+Frac == VNum(Dec(FALSE, <<3, 1, 4, 1, 5, 9, 2, 6, 5>>, 0 - 8))
+PrintLists ==
+  { <<VNum(n1)>> : n1 \in PrintNums } \cup { <<VNum(n1), St(<<c_s>>), VNum(n1)>> : n1 \in PrintNums } \cup
+  { <<St(<<c_a, COMMA, c_b>>), Frac>>, <<St(<<SP, c_a>>), Frac, St(<<c_q, DQ, c_q>>)>>, <<Frac, VNull, N(7)>>, <<VNull>>, <<St(<<>>)>>,
+    <<In(<<D3, DOT, D0>>), Frac>>, <<In(<<SP, D4, D2, SP>>), In(<<D0, DOT, D1, D0>>), Frac>>, <<In(<<D1, c_e, D3>>), St(<<D1, c_e, D3>>), N(1000)>>,
+    <<In(<<D0, c_x, D4, D1>>), In(<<c_a, c_b, c_c>>), VNum(Dec(TRUE, <<2, 5>>, 0 - 1))>>, <<St(<<D3, DOT, D1, D4, D1, D5, D9, D2, D6, D5>>), Frac>> }
+OfsTexts == { <<SP>>, <<MINUS>> }
+\* the class of a print line, for the failure signature
+HasFraction(args) == \E j \in 1..Len(args) : args[j].tag = "num" /\ ~InInt64(args[j].n)
 =============================================================================
